@@ -29,12 +29,15 @@ pub struct MutexScn {
     pub cap: usize,
     pub queue: Option<usize>,
     pub via_client: bool,
+    /// the sink's refusals are reported with kind WouldBlock (as a non-blocking socket would)
+    pub would_block: bool,
     pub prog: Vec<String>,
     pub text: String,
 }
 
 pub fn scenario(spec: &crate::Spec) -> MutexScn {
     MutexScn {
+        would_block: spec.usize("wb", 0) == 1,
         sink: spec.str("sink", "spy"),
         cap: spec.usize("cap", 7),
         queue: spec.opt_usize("q"),
@@ -119,17 +122,21 @@ impl Scenario for MutexScn {
             };
             let recv = Arc::new(recv);
             let target = Arc::new(if scn.via_client {
-                struct Fwd(Arc<dyn MetricSink + Send + Sync>);
+                struct Fwd(Arc<dyn MetricSink + Send + Sync>, bool);
                 impl MetricSink for Fwd {
                     fn emit(&self, m: &str) -> std::io::Result<usize> {
-                        self.0.emit(m)
+                        let r = self.0.emit(m);
+                        if self.1 {
+                            return r.map_err(|e| std::io::Error::new(std::io::ErrorKind::WouldBlock, e));
+                        }
+                        r
                     }
                     fn flush(&self) -> std::io::Result<()> {
                         self.0.flush()
                     }
                 }
                 impl std::panic::RefUnwindSafe for Fwd {}
-                Target::Client(Arc::new(StatsdClient::from_sink("", Fwd(sink.clone()))))
+                Target::Client(Arc::new(StatsdClient::from_sink("", Fwd(sink.clone(), scn.would_block))))
             } else {
                 Target::Sink(sink.clone())
             });
@@ -546,6 +553,13 @@ impl Scenario for QFlushScn {
                     QEv::Flush { ok: false, .. } => br(&mut out, &["C06"], "queue-flush-failed", "client.flush() through the queuing sink failed without any socket failure".into()),
                     QEv::Final { seen } => {
                         let have = lines_upto(*seen);
+                        // one producer: its metrics leave the buffered sink in program order
+                        let fitting: Vec<&String> = have.iter().filter(|l| inner.iter().any(|(m, _)| m == *l)).collect();
+                        let mut sorted = fitting.clone();
+                        sorted.sort();
+                        if fitting != sorted {
+                            br(&mut out, &["C06", "C12", "C08"], "queue-flush-reordered", format!("one thread emitted its metrics in the order {:?} but they left the buffered sink in the order {:?}", sorted, fitting));
+                        }
                         for (m, _) in &inner {
                             let n = have.iter().filter(|x| *x == m).count();
                             if n != 1 {
